@@ -184,7 +184,35 @@ func c13Families(tier string) []engine.Family {
 		x.Outcome(model.Dump(target.Elem().Interface()))
 	}
 
-	return []engine.Family{
+	// typed targets from the Go type space of C11/C12: the stream is the documented-mapping model of a value of
+	// the type (not the library's own fold), unfolded into a zero variable of that type
+	goTargets := goFamilies(tier, func(x *engine.Exec, c *GoCase) {
+		if !c.V.IsValid() || noRoundTrip[c.Class] || gen.HasCustomFolder(c.T) || gen.ValueHasCustomFolder(c.V) {
+			return
+		}
+		fe := model.RefFold(c.V.Interface())
+		if ok, _ := model.UnfoldSupported(c.T); !ok || fe.Refuse {
+			return
+		}
+		evs := byRefVariant(fe.V.Events(nil), x.Bool())
+		if x.Bool() {
+			for i := range evs {
+				if evs[i].K == model.KArrStart || evs[i].K == model.KObjStart {
+					evs[i].Len = -1
+				}
+			}
+		}
+		typed(x, "go-targets", reflect.New(c.T), evs, "go-target:"+c.Class, "struct_compared")
+	})
+	var fams []engine.Family
+	for _, f := range goTargets {
+		if f.Name == "plain" || f.Name == "struct2" || f.Name == "struct3" {
+			continue // covered by numeric-cross / struct-members and by C11's round trips
+		}
+		f.Name = "go-targets-" + f.Name
+		fams = append(fams, f)
+	}
+	return append(fams, []engine.Family{
 		c13CustomFamily(tier),
 		{Name: "generic-trees", Arity: []int{nLeaves + 4, 2}, Body: func(x *engine.Exec) {
 			t := gen.Tree(x, &gen.TreeOpts{MaxNodes: maxNodes, Leaves: leaves[:nLeaves], Keys: []string{"a", "b"}})
@@ -314,7 +342,7 @@ func c13Families(tier string) []engine.Family {
 			}
 			typed(x, "struct-members", target, evs, fmt.Sprintf("struct:%d-members:%d-unknown", len(sel), unknown), "struct_compared")
 		}},
-	}
+	}...)
 }
 
 func hintOf(k model.Kind) structform.BaseType {
